@@ -91,9 +91,28 @@ def classify(clause: str, tr: dict, e: dict):
     return None
 
 
+def directed_histories(tier: str):
+    """filters naming, by id or by number, one of two PGNs whose ids begin alike ('temperature' and
+    'temperatureExtendedRange'): an entry selects exactly the definition it names; plus re-claims under a filtered claim"""
+    def single(p, s):
+        return {"k": "single", "pgn": p, "src": s, "tok": []}
+
+    def frames(s, q):
+        return [{"k": "frame", "src": s, "seq": q, "fc": i, "len": 14, "chunk": [1]} for i in range(3)]
+    hist = [{"k": "claim", "src": 1, "name": 1}, single("T1", 1), single("T2", 1), single("A", 1), single("T2", 2), single("T1", 2)] \
+        + frames(1, 1) + [{"k": "claim", "src": 1, "name": 2}, single("T2", 1), single("T1", 1), single("B", 2)]
+    out = []
+    for mode in ("exclude", "include"):
+        for nums, ids in (([], ["T1"]), ([], ["T2"]), (["T1"], []), (["T2"], []), (["A"], ["T1"]), (["T2"], ["T1"]), ([], ["T1", "CLAIM"]),
+                          (["CLAIM"], ["T2"]), ([], ["T1", "T2"])):
+            cfg = {"mode": mode, "nums": nums, "ids": ids, "mfrMode": "none", "mfrs": [], "netmap": False}
+            out.append([("Init", {"cfg": cfg, "ev": {"k": "init"}})] + [("Directed", {"cfg": cfg, "ev": e}) for e in hist])
+    return out if tier != "selftest" else out[::3]
+
+
 def bind(chk: Check, tier: str, seed: int):
     wd = workdir(PROP)
-    traces, outs, drops = run_traces(chk, wd, PROP, tier, seed, classify)
+    traces, outs, drops = run_traces(chk, wd, PROP, tier, seed, classify, directed=directed_histories(tier))
     chk.gate(outs > len(traces), "hardly any message was returned by the unfiltered decoders: vacuous")
     chk.gate(drops > len(traces) // 4, f"only {drops} messages were filtered out: the filters do not bite")
     chk.assumptions += ["kinds A/B/F/CLAIM stand for PGNs 127250/130306/128275/60928; ids are spelled in random letter case",
